@@ -194,7 +194,7 @@ class UpdateTaskState(Unit):
             log = cbase.CallLog()
             task_id = T if kind != "engine" else ev_c
             has_items = kind == "item"
-            may_complete = kind == "action" and ev_c in st.COMPLETED_STATUSES and rec_c is not None
+            may_complete = kind in ("action", "item") and ev_c in st.COMPLETED_STATUSES and rec_c is not None
             light = ctx.tier != "thorough" and cfg != "one"    # quick: retry / terminal-workflow variants on "one" only
             # a record waiting to be retried always carries its retry settings
             has_retry = (rec_c == st.RETRYING and kind == "action") or \
@@ -229,6 +229,10 @@ class UpdateTaskState(Unit):
                 stg = {"id": task_id, "route": 0, "ctxs": {"in": [0, 1]}, "prev": {"x0__t0": 0}, "ready": True}
                 if has_items:
                     stg["items"] = [{"status": S.mk_const("item%d" % i, st.ALL_STATUSES)} for i in range(2)]
+                    # a with-items task keeps its staged entry: from its first retry on the entry carries
+                    # the retry mark of that earlier retry
+                    if has_retry and e.branch(S.mk_bool("staged_marked_by_earlier_retry").z):
+                        stg["retry"] = cbase.snapshot(rec["retry"])
                     for it in stg["items"]:
                         e.assume(it["status"].dom_constraint())
                 staged.append(stg)
